@@ -208,6 +208,13 @@ pub struct Stats {
 fn run_session(cred: &Cred, lines: &[(String, Option<Option<String>>)], secondary: bool, dir: &str, v: &Verdicts, stats: &Mutex<Stats>) {
     let list0 = if let Cred::User(l) = cred { l.clone() } else { Some("rwix *".to_string()) };
     let mut fx = fixture(dir, &list0);
+    // in every other session with permission changes the fixture (users and permission lists included) has been through a
+    // snapshot: a list removed later leaves a tombstone behind instead of vanishing from memory
+    let persisted = lines.iter().any(|l| l.1.is_some()) && lines.len() % 2 == 0;
+    if persisted {
+        fx.adm.call(&fx.node.dbs, "snapshot false db");
+        fx.node.declutter();
+    }
     let mut cur_cred = cred.clone();
     let mut s = Session::new();
     login(cred, &mut s, &fx.node);
@@ -244,7 +251,7 @@ fn run_session(cred: &Cred, lines: &[(String, Option<Option<String>>)], secondar
             if let Cred::User(_) = cur_cred {
                 cur_cred = Cred::User(newlist.clone());
             }
-            trace.push(json!({"admin-changes-permissions-of-u-to": newlist}));
+            trace.push(json!({"admin-changes-permissions-of-u-to": newlist, "fixture_snapshotted_before_the_session": persisted}));
         }
         let need = need_of(line);
         let expect = allowed(&cur_cred, &need);
